@@ -182,6 +182,13 @@ func mixedJobs(w, wl *world, rng *vh.RNG) []job {
 			return bogusView(w, main, k, mut, L-k+6, 0x77)
 		}
 	}
+	// a genuine PREFIX of the requested batch (no field corrupted): on its own it is a wrong
+	// count; if it were accepted, the next batch — from an honest peer — would lack its parent
+	prefix := script{mutB: func(ord int, a *bAns) {
+		if len(a.blocks) >= 2 {
+			a.blocks = a.blocks[:len(a.blocks)-1]
+		}
+	}}
 	specs := []byzSpec{
 		{"same-id-other-body", honest, sameID},
 		{"bad-checkpoint-state", honest, badState},
@@ -215,6 +222,20 @@ func mixedJobs(w, wl *world, rng *vh.RNG) []job {
 	light.MineN(4, 2*time.Second, 0x79)
 	add(true, &mixedCase{name: "mixed-victim-on-fork", tags: []string{"kind:honest+byzantine", "byz:same-id-other-body", "regime:v2-checkpoint"},
 		w: w, victim: light.Blocks, honest: main.Blocks, byz: []byzSpec{specs[0], specs[7]}})
+	// truncated-but-genuine batches among several peers: several requests per round (request sizes
+	// 3, 5, 7), an honest node and one or two peers that answer every block request with all but
+	// the last block
+	for _, k := range []uint64{3, 5, 7} {
+		for _, nb := range []int{1, 2} {
+			k, nb := k, nb
+			bz := []byzSpec{{"genuine-prefix", honest, prefix}}
+			if nb == 2 {
+				bz = append(bz, byzSpec{"genuine-prefix", honest, prefix})
+			}
+			add(true, &mixedCase{name: fmt.Sprintf("mixed-genuine-prefix-split%d-%dbyz", k, nb), tags: []string{"kind:honest+byzantine", "byz:genuine-prefix", fmt.Sprintf("split:%d", k), "regime:v1-then-v2"},
+				w: w, victim: nil, honest: main.Blocks, byz: bz, sendCap: k})
+		}
+	}
 	// only an honest node, request bases exactly on the require height (tip there / request boundary there)
 	reqH := int(w.nt.N.HardforkV2.RequireHeight)
 	for _, d := range []int{-1, 0, 1} {
